@@ -204,9 +204,9 @@ def ref_loglik(case, method="auto", empirical=None, P_override=None):
     cache = {}
 
     def P_of(node, k):
-        key = (id(node), k)
         if P_override is not None and k in P_override:
             return P_override[k]
+        key = (bl[id(node)], k)  # equal lengths share a matrix
         if key not in cache:
             cache[key] = ctmc.p_t(Qn, bl[id(node)] * rates[k])
         return cache[key]
